@@ -113,6 +113,15 @@ MODELS = {
 T_END = {"coulomb_atoms/power_bounded.ini": (1500, 20000), "coulomb_atoms/cell_bounded.ini": (600, 6000),
          "coulomb_atoms/cell_veto.ini": (60, 600), "dipoles/cell_veto.ini": (25, 250), "dipoles/cell_bounded.ini": (120, 1200),
          "water/single_molecule.ini": (400, 4000)}
+HARMONIC_BETA, HARMONIC_K, HARMONIC_R0 = 1.0, 200.0, 0.2
+HARMONIC_COMMON = {"HypercubicSetting": {"beta": HARMONIC_BETA},
+                   "DisplacedEvenPowerPotential": {"equilibrium_separation": HARMONIC_R0, "prefactor": HARMONIC_K, "power": 2}}
+HARMONIC_VARIANTS = {
+    "invertible": {"Coulomb": {"event_handler": "pair_event_handler (two_leaf_unit_event_handler)"},
+                   "PairEventHandler": {"potential": "displaced_even_power_potential"}},
+    "piecewise_bounding": {"Coulomb": {"event_handler": "pair_event_handler (two_leaf_unit_event_handler_with_piecewise_constant_bounding_potential)"},
+                           "PairEventHandler": {"potential": "displaced_even_power_potential", "offset": 10.0, "max_displacement": 0.025}},
+}
 N_CORR = 4     # samples per effectively independent one (conservative; chains are long compared with the sampling interval)
 
 
@@ -154,6 +163,12 @@ def run(ctx):
             q, t = T_END.get(ini, (600, 6000))
             jobs.append({"ini": CFG + ini, "seed": ctx.seed * 10 + 1, "light": True, "model": model, "timeout": 1500,
                          "overrides": {"FinalTimeEndOfRunEventHandler": {"end_of_run_time": ctx.n(q, t)}}})
+    # harness-built model (property: "plus harness-built soft-sphere … systems"): two atoms bound by U = k (r - r0)^2, realised by
+    # directly invertible pair events and by thinning with a piecewise constant bounding rate; independent reference below
+    for label, ov in HARMONIC_VARIANTS.items():
+        jobs.append({"ini": CFG + "coulomb_atoms/power_bounded.ini", "seed": ctx.seed * 10 + 2, "light": True, "model": "harmonic_pair",
+                     "variant": label, "timeout": 1500,
+                     "overrides": {**HARMONIC_COMMON, **ov, "FinalTimeEndOfRunEventHandler": {"end_of_run_time": ctx.n(1200, 12000)}}})
     trs = runs.run_jobs(ctx.root, jobs, workers=12, timeout=1500)
     obs = {}
     for tr in trs:
@@ -162,7 +177,7 @@ def run(ctx):
             ctx.fail("C01:run-does-not-finish:" + str(tr["end"])[:40], {"job": job, "exception": (tr.get("exception") or "")[-800:]},
                      "a shipped configuration did not run to its end")
             continue
-        obs[(job["model"], job["ini"])] = observables(tr)
+        obs[(job["model"], job["ini"] if "variant" not in job else job["variant"])] = observables(tr)
         wrong = {k: v for k, v in tr.get("expovariate_rates", {}).items() if k != tr.get("beta")}
         ctx.count("exponential-budgets-drawn", sum(tr.get("expovariate_rates", {}).values()))
         if wrong:
@@ -199,5 +214,37 @@ def run(ctx):
                         ctx.fail(f"C01:variants-disagree:{model}:{name}",
                                  {"a": keys[i], "b": keys[j], "observable": name, "D": d, "critical": c, "seed": ctx.seed},
                                  f"two algorithmic variants of one model disagree (two-sample KS {d:.3f} > {c:.3f})")
+    # harmonic pair against its numerically integrated Boltzmann distribution p(r) ~ r^2 exp(-beta k (r - r0)^2), r < L/2
+    xs = [i * 0.0005 for i in range(1, 1000)]
+    w = [x * x * math.exp(-HARMONIC_BETA * HARMONIC_K * (x - HARMONIC_R0) ** 2) for x in xs]
+    tot = sum(w)
+    acc, cs = 0.0, []
+    for v in w:
+        acc += v
+        cs.append(acc / tot)
+    per = {}
+    for label in HARMONIC_VARIANTS:
+        sm = obs.get(("harmonic_pair", label), {}).get("r")
+        if not sm:
+            continue
+        per[label] = sm
+        d = ks_one(sm, xs, cs)
+        c = crit(len(sm) / N_CORR)
+        stats[f"harmonic_pair/{label}/r"] = {"n": len(sm), "D_ref": round(d, 4), "crit": round(c, 4)}
+        ctx.evaluations += 1
+        ctx.cls(("harmonic_pair", label, "r"))
+        if d > c:
+            ctx.fail("C01:distribution-differs-from-reference:harmonic_pair:r",
+                     {"variant": label, "samples": len(sm), "D": d, "critical": c, "seed": ctx.seed,
+                      "overrides": {**HARMONIC_COMMON, **HARMONIC_VARIANTS[label]}},
+                     f"Kolmogorov-Smirnov distance {d:.3f} to the integrated Boltzmann distribution exceeds {c:.3f}")
+    if len(per) == 2:
+        a, b = per["invertible"], per["piecewise_bounding"]
+        d = ks_two(a, b)
+        c = crit((len(a) * len(b) / (len(a) + len(b))) / N_CORR)
+        ctx.evaluations += 1
+        if d > c:
+            ctx.fail("C01:variants-disagree:harmonic_pair:r", {"D": d, "critical": c, "seed": ctx.seed},
+                     f"directly invertible events and thinned events of one model disagree (two-sample KS {d:.3f} > {c:.3f})")
     ctx.extra["statistics"] = stats
     ctx.sample({"statistics_head": dict(list(stats.items())[:4])})
